@@ -524,6 +524,89 @@ func (ex *Exec) Run() {
 	for _, r := range ex.returns {
 		final = ex.merge(final, r)
 	}
+	// a recovered panic: the function returns through the body of its deferred recover. Where the panic happened is unknown:
+	// everything the function may write is unknown, named results hold whatever they held, unnamed results are zero values
+	for _, lit := range ex.recoverLits {
+		ps := ex.entry.clone()
+		ps.pc = ex.U.Fresh("panicked", SBool)
+		ex.st = ps
+		// heaps and package variables the body refers to, and the ghost state the function may change: unknown
+		var normal *State
+		for _, r := range ex.returns {
+			normal = ex.merge(normal, r)
+		}
+		if normal != nil {
+			for v, t := range normal.vars {
+				if _, has := ps.vars[v]; !has {
+					if t.Sort != nil && t.Sort.Name != "" && v.Name() != "" && v.Name() != "_" {
+						ps.vars[v] = ex.U.Fresh(v.Name(), t.Sort)
+					} else {
+						ps.vars[v] = t
+					}
+				}
+			}
+			for name, t := range normal.heaps {
+				if name == "" || t.Sort == nil || t.Sort.Name == "" {
+					ps.heaps[name] = t
+					continue
+				}
+				ps.heaps[name] = ex.U.Fresh(name, t.Sort)
+			}
+			for g, t := range normal.globals {
+				if t.Sort == nil || t.Sort.Name == "" {
+					ps.globals[g] = t
+					continue
+				}
+				ps.globals[g] = ex.U.Fresh("G_"+g.Name(), t.Sort)
+			}
+		}
+		if eff := ex.P.Effects[fi.Name]; eff != nil {
+			oldClock := ps.ghost["evClock"]
+			for _, gv := range ghostVars {
+				if gv.Cat != "alloc" && eff.Ghost[gv.Cat] {
+					ps.ghost[gv.Name] = ex.U.Fresh(gv.Name, gv.Sort)
+				}
+			}
+			if eff.Ghost["clock"] {
+				ex.facts = append(ex.facts, fmt.Sprintf("(>= %s %s)", ps.ghost["evClock"].S, oldClock.S))
+			}
+			if eff.Ghost["clock"] || eff.Ghost["chan"] {
+				ex.facts = append(ex.facts, fmt.Sprintf("(<= %s %s)", ps.ghost["evLastTime"].S, ps.ghost["evClock"].S))
+			}
+		}
+		na := ex.U.Fresh("alloc", SInt)
+		ex.facts = append(ex.facts, fmt.Sprintf("(>= %s %s)", na.S, ps.ghost["alloc"].S))
+		ps.ghost["alloc"] = na
+		for _, rv := range ex.resVars {
+			switch {
+			case rv.Name() == "" || rv.Name() == "_":
+				ex.st.vars[rv] = ex.U.Zero(ex.U.SortOf(rv.Type()))
+			case ex.boxed[rv]:
+				// assigned by the closure: the executor keeps result variables as plain values (returns write them directly)
+				delete(ex.boxed, rv)
+				ex.st.vars[rv] = ex.U.Fresh(rv.Name(), ex.U.SortOf(rv.Type()))
+			default:
+				ex.st.vars[rv] = ex.U.Fresh(rv.Name(), ex.U.SortOf(rv.Type()))
+			}
+		}
+		ifs := lit.Body.List[0].(*ast.IfStmt)
+		if as, ok := ifs.Init.(*ast.AssignStmt); ok && len(as.Lhs) == 1 {
+			if id, ok := as.Lhs[0].(*ast.Ident); ok && id.Name != "_" {
+				if v, ok := ex.info.Defs[id].(*types.Var); ok {
+					r := ex.U.Fresh("recovered", SAny)
+					ex.fact(Not(Eq(r, Term{"nilAny", SAny})))
+					ex.declare(v, r)
+				}
+			}
+		}
+		ex.block(ifs.Body.List)
+		if !ex.st.dead() {
+			final = ex.merge(final, ex.st)
+		}
+		if ex.unsupported != "" {
+			return
+		}
+	}
 	if final == nil {
 		return // never returns normally
 	}
